@@ -15,6 +15,9 @@ DEFS = [
     {"StartAt": "F", "States": {"F": {"Type": "Fail", "Error": "E.Boom", "Cause": "because"}}},
     {"StartAt": "W", "States": {"W": {"Type": "Wait", "Seconds": 1000, "End": True}}},
     {"StartAt": "S", "States": {"S": {"Type": "Succeed"}}},
+    # same state names as above with other behaviour: an execution must run the definition current at its start
+    {"StartAt": "P", "States": {"P": {"Type": "Pass", "Result": {"version": 2}, "Next": "S"}, "S": {"Type": "Succeed"}}},
+    {"StartAt": "P", "States": {"P": {"Type": "Fail", "Error": "E.Redefined", "Cause": "now fails"}}},
 ]
 BAD_DEFS = ["", "{not json", "[1, 2]", None]
 TYPED_BAD_DEFS = [7, {"StartAt": "P", "States": {"P": {"Type": "Pass", "End": True}}}, ["x"]]
@@ -59,7 +62,40 @@ def gen_ops(rng, n, front_end="asyncio", p_invalid=0.3, typed=True, bodies=True)
             return ex_arn(s, e)
         return ex_arn(rng.choice(NAMES), "nope")
 
-    for _ in range(n):
+    def redefine_and_run():
+        """Motif: run a machine, redefine it (update, or delete and create again under the same name), run it again and
+        look at both executions: each must have run the definition that was current when it started."""
+        nm = rng.choice(NAMES)
+        first, second = rng.sample(DEFS, 2)
+        typ = rng.choice(["STANDARD", "STANDARD", "EXPRESS"])
+        out = [{"action": "CreateStateMachine", "params": {"name": nm, "roleArn": rng.choice(ROLES),
+                                                            "definition": json.dumps(first), "type": typ}}]
+        def start():
+            counter[0] += 1
+            en = "e%d" % counter[0]
+            started.append((nm, en))
+            out.append({"action": "StartExecution", "params": {"stateMachineArn": sm_arn(nm), "name": en,
+                                                                "input": rng.choice(INPUTS)}})
+            return en
+        e1 = start()
+        if rng.random() < 0.5:
+            out.append({"action": "DescribeExecution", "params": {"executionArn": ex_arn(nm, e1)}})
+        if rng.random() < 0.7:
+            out.append({"action": "UpdateStateMachine", "params": {"stateMachineArn": sm_arn(nm), "definition": json.dumps(second)}})
+        else:
+            out.append({"action": "DeleteStateMachine", "params": {"stateMachineArn": sm_arn(nm)}})
+            out.append({"action": "CreateStateMachine", "params": {"name": nm, "roleArn": rng.choice(ROLES),
+                                                                    "definition": json.dumps(second), "type": typ}})
+        e2 = start()
+        out.append({"action": "DescribeExecution", "params": {"executionArn": ex_arn(nm, e2)}})
+        out.append({"action": "DescribeExecution", "params": {"executionArn": ex_arn(nm, e1)}})
+        return out
+
+    motif_at = rng.randrange(max(1, n)) if rng.random() < 0.3 else None
+    for k in range(n):
+        if k == motif_at:
+            ops.extend(redefine_and_run())
+            continue
         inv = rng.random() < p_invalid
         r = rng.random()
         if bodies and rng.random() < 0.03:
